@@ -673,7 +673,7 @@ Proof.
     f_equal.
     + rewrite rdo_app by exact Hbv. rewrite Vv2. exact (eq_sym Vv).
     + rewrite rd_whole_new by reflexivity. reflexivity.
-    + replace (length h2) with (length h2 + 0)%nat by lia. rewrite rd_sub_new. cbn [nth]. symmetry. apply firstn_skipn_rest.
+    + rewrite rd_whole_new by reflexivity. reflexivity.
     + rewrite rd_sub_new. cbn [nth skipn]. rewrite Hpb2, Fp1, Vk. reflexivity.
     + rewrite Sd2, Sd1. reflexivity.
     + rewrite Sp2, Fp1. reflexivity.
